@@ -149,10 +149,10 @@ func allChecks() []*Check {
 			ID: "C17", Title: "The client always knows its own current nick",
 			Harnesses: []Harness{
 				{Pkg: "client", Func: "VerifC17Step", Quick: map[string]int{"NL": 2}, Thorough: map[string]int{"NL": 4},
-					Asserts: []string{"asks-for-generated-nick", "generator-consulted-once-per-collision", "config-me-non-nil", "me-non-nil", "me-is-servers-nick", "no-unprompted-nick-change", "unaffected-by-old-nick-holder"}},
+					Asserts: []string{"asks-for-generated-nick", "config-me-non-nil", "me-non-nil", "me-is-servers-nick", "no-unprompted-nick-change", "unaffected-by-old-nick-holder"}},
 				{Pkg: "client", Func: "VerifC17NewNick", Asserts: []string{"same-length", "same-prefix", "last-byte-differs"}},
 			},
-			Bounds:      map[string]string{"quick": "one server event {433 before the welcome, 001 same/different nick with/without nick!user@host, own NICK (both parameter forms), 433 after the welcome, NICK of another user} from any state satisfying 'Me().Nick = server's nick'; nicks 1..2 symbolic bytes; tracking on/off; default generator and a custom one that is not a pure function (a different nick on every call: it must be consulted once per collision); DefaultNewNick for all byte strings of length 1..3", "thorough": "nicks 1..4 bytes"},
+			Bounds:      map[string]string{"quick": "one server event {433 before the welcome, 001 same/different nick with/without nick!user@host, own NICK (both parameter forms), 433 after the welcome, NICK of another user} from any state satisfying 'Me().Nick = server's nick'; nicks 1..2 symbolic bytes; tracking on/off; default generator and a custom one that is not a pure function (a different nick on every call: what is recorded as the client's nick must be what was sent); DefaultNewNick for all byte strings of length 1..3", "thorough": "nicks 1..4 bytes"},
 			Outside:     []string{"longer nicks, more than one other tracked user", "non-conformant servers (433 before the welcome for a nick other than the pending one; renaming onto a nick in use)"},
 			Stubs:       []string{"goroutines run to completion", "sync.* ghost models; sync.Pool: Get returns the most recently Put object (recycling is the adversarial legal behaviour)"},
 			Assumptions: []string{"server conformance as stated in the property"},
